@@ -5,10 +5,14 @@ from checks import gpbft_common as g
 
 # clauses of the property that are (so far) theorems about single calls on arbitrary states, not about runs; the per-op
 # oracles judge them on every honest participant of every run. Updated when Props/C07 §RunLevel covers them.
-PARTIAL = ["'every message it emits is valid and acceptable to its peers': run-level theorem emitted_valid — see Props/C07 "
-           "§RunLevel if present; otherwise judged by the badhonest oracle (every honest broadcast through a peer's real validator)",
-           "vote choice at run level (QUALITY-tally invariant, candidate completeness): one-call theorems prepare0_value, "
-           "converge_adopts_best_valid + per-op oracles; completeness of the candidate set is oracle-only unless §RunLevel proves it"]
+PARTIAL = ["run-level theorems (Props/C07 §RunLevel: emitted_valid, emitted_shapes, longest_prefix_maximal/_characterised, "
+           "quality_tally_meaning, quality_first_votes, prepare0_run, candidates_complete, converge_adopts_best_ticket) are for "
+           "the instance-level `run`; their participant-API versions (queue drain, several instances) and Eff.rebroadcast are "
+           "not stated — the per-op oracles judge those on every honest participant of every run",
+           "candidates_complete holds for CONVERGE/PREPARE/COMMIT only: a participant pulled from QUALITY straight to DECIDE "
+           "(skipToDecide / COMMIT quorum) keeps an incomplete candidate set — harmless (candidates are only read by "
+           "tryConverge, DECIDE never returns there); kept as a decide-checked example",
+           "MsgValid carries no ticket, instance id or supplemental data (consumed as data / booleans from the harness)"]
 
 
 def run(ctx):
